@@ -50,17 +50,17 @@ func Spec_Make(f LazyFunctions) LazyFunctions {
 func Spec_decideHandler(c *gin.Context) {
 	var dm model.DecisionMaker
 	if err := c.ShouldBindJSON(&dm); err != nil {
-		writeError(err, &dm, c)
+		Spec_writeError(err, &dm, c)
 		return
 	}
 	defer func() {
 		if e := recover(); e != nil {
-			writeError(e, &dm, c)
+			Spec_writeError(e, &dm, c)
 		}
 	}()
-	decision := dm.MakeDecision(funcs, biasListeners, &biases, utils.RandomBasedSeedValueGenerator)
+	decision := dm.Spec_MakeDecision(funcs, biasListeners, &biases, utils.Spec_RandomBasedSeedValueGenerator)
 	log.Printf("%#v", requestSuccess{dm, *decision})
-	writeJSON(decision, c)
+	Spec_writeJSON(decision, c)
 }
 
 func Spec_writeError(e interface{}, dm *model.DecisionMaker, c *gin.Context) {
@@ -118,14 +118,14 @@ var Spec_funcs = model.PreferenceFunctions{
 		&owa.OWAPreferenceFunc{},
 		&electreIII.ElectreIIIPreferenceFunc{},
 		&choquet.ChoquetIntegralPreferenceFunc{},
-		aspect_elimination.NewAspectEliminationHeuristic(increasingSatisfactionLevels, utils.RandomBasedSeedValueGenerator),
-		majority.NewMajority(utils.RandomBasedSeedValueGenerator, []majority.DrawResolver{
+		aspect_elimination.Spec_NewAspectEliminationHeuristic(increasingSatisfactionLevels, utils.Spec_RandomBasedSeedValueGenerator),
+		majority.Spec_NewMajority(utils.Spec_RandomBasedSeedValueGenerator, []majority.DrawResolver{
 			&majority.DrawAllowedResolver{},
 			&majority.CurrentIsWinnerDrawResolver{},
 			&majority.NewerIsWinnerResolver{},
 			&majority.RandomWinnerResolver{},
 		}),
-		satisfaction.NewSatisfaction(utils.RandomBasedSeedValueGenerator, decreasingSatisfactionLevels),
+		satisfaction.Spec_NewSatisfaction(utils.Spec_RandomBasedSeedValueGenerator, decreasingSatisfactionLevels),
 	},
 }
 
@@ -135,20 +135,20 @@ var Spec_biasListeners = model.BiasListeners{
 		&owa.OwaBiasListener{},
 		&electreIII.ElectreIIIBiasLIstener{},
 		&choquet.ChoquetIntegralBiasListener{},
-		aspect_elimination.NewAspectEliminationBiasListener(increasingSatisfactionLevelsUpdates),
+		aspect_elimination.Spec_NewAspectEliminationBiasListener(increasingSatisfactionLevelsUpdates),
 		&majority.MajorityBiasListener{},
-		satisfaction.NewSatisfactionBiasListener(decreasingSatisfactionLevelsUpdates),
+		satisfaction.Spec_NewSatisfactionBiasListener(decreasingSatisfactionLevelsUpdates),
 	},
 }
 
-var Spec_referenceCriterionManager = *reference_criterion.NewReferenceCriteriaManager(
+var Spec_referenceCriterionManager = *reference_criterion.Spec_NewReferenceCriteriaManager(
 	[]reference_criterion.ReferenceCriterionFactory{
 		&reference_criterion.ImportanceRatioReferenceCriterionManager{},
 		&reference_criterion.RandomUniformReferenceCriterionManager{
-			RandomFactory: utils.RandomBasedSeedValueGenerator,
+			RandomFactory: utils.Spec_RandomBasedSeedValueGenerator,
 		},
 		&reference_criterion.RandomWeightedReferenceCriterionManager{
-			RandomFactory: utils.RandomBasedSeedValueGenerator,
+			RandomFactory: utils.Spec_RandomBasedSeedValueGenerator,
 		},
 	},
 )
@@ -157,20 +157,20 @@ var Spec_criteriaOrdering = []criteria_ordering.CriteriaOrderingResolver{
 	&criteria_ordering.WeakestCriteriaOrderingResolver{},
 	&criteria_ordering.StrongestCriteriaOrderingResolver{},
 	&criteria_ordering.RandomCriteriaOrderingResolver{
-		Generator: utils.RandomBasedSeedValueGenerator,
+		Generator: utils.Spec_RandomBasedSeedValueGenerator,
 	},
 	&criteria_ordering.WeakestByProbabilityCriteriaOrderingResolver{
-		Generator: utils.RandomBasedSeedValueGenerator,
+		Generator: utils.Spec_RandomBasedSeedValueGenerator,
 	},
 	&criteria_ordering.StrongestByProbabilityCriteriaOrderingResolver{
 		WeakestByProbability: &criteria_ordering.WeakestByProbabilityCriteriaOrderingResolver{
-			Generator: utils.RandomBasedSeedValueGenerator,
+			Generator: utils.Spec_RandomBasedSeedValueGenerator,
 		},
 	},
 }
 
 var Spec_biases = model.BiasMap{
-	anchoring.BiasName: anchoring.NewAnchoring(
+	anchoring.BiasName: anchoring.Spec_NewAnchoring(
 		[]anchoring.AnchoringEvaluator{
 			&anchoring.LinearAnchoringEvaluator{},
 			&anchoring.ExpFromZeroAnchoringEvaluator{},
@@ -181,25 +181,25 @@ var Spec_biases = model.BiasMap{
 		},
 		[]anchoring.AnchoringApplier{
 			&anchoring.InlineAnchoringApplier{},
-			anchoring.NewNewCriterionAnchoringApplier(
-				utils.RandomBasedSeedValueGenerator,
+			anchoring.Spec_NewNewCriterionAnchoringApplier(
+				utils.Spec_RandomBasedSeedValueGenerator,
 				referenceCriterionManager,
 			),
 		},
 	),
-	criteria_concealment.BiasName: criteria_concealment.NewCriteriaConcealment(
-		utils.RandomBasedSeedValueGenerator,
+	criteria_concealment.BiasName: criteria_concealment.Spec_NewCriteriaConcealment(
+		utils.Spec_RandomBasedSeedValueGenerator,
 		referenceCriterionManager,
 	),
-	criteria_mixing.BiasName: criteria_mixing.NewCriteriaMixing(
-		utils.RandomBasedSeedValueGenerator,
+	criteria_mixing.BiasName: criteria_mixing.Spec_NewCriteriaMixing(
+		utils.Spec_RandomBasedSeedValueGenerator,
 		referenceCriterionManager,
 	),
-	preference_reversal.BiasName: preference_reversal.NewPreferenceReversal(criteriaOrdering),
-	criteria_omission.BiasName:   criteria_omission.NewCriteriaOmission(criteriaOrdering),
-	fatigue.BiasName: fatigue.NewFatigue(
-		utils.RandomBasedSeedValueGenerator,
-		utils.RandomBasedSeedValueGenerator,
+	preference_reversal.BiasName: preference_reversal.Spec_NewPreferenceReversal(criteriaOrdering),
+	criteria_omission.BiasName:   criteria_omission.Spec_NewCriteriaOmission(criteriaOrdering),
+	fatigue.BiasName: fatigue.Spec_NewFatigue(
+		utils.Spec_RandomBasedSeedValueGenerator,
+		utils.Spec_RandomBasedSeedValueGenerator,
 		[]fatigue.FatigueFunction{
 			&fatigue.ExponentialFromZeroFatigue{},
 			&fatigue.ConstFatigueFunction{},
@@ -207,6 +207,6 @@ var Spec_biases = model.BiasMap{
 	),
 }
 
-var Spec_funcRequirements = Make(func() *utils.Map {
-	return funcs.FetchParameters()
+var Spec_funcRequirements = Spec_Make(func() *utils.Map {
+	return funcs.Spec_FetchParameters()
 })
